@@ -19,7 +19,7 @@ TEXT = ("Decides the four structural lemmas the implementation's convergence arg
         "the other two item classes, and the success of the verified read (no further selection). Relies on C05 (deterministic winner), "
         "C18 (no order taint), C19 (canonical identifiers), C10/C11 (verified, content-named items). L1b: every insertion into the revision map is post-dominated by an invalidation of the derived caches. Does not decide "
         "equality of the merged *values* over all histories and delivery orders."
-        " L1c: the inserting function returns without inserting only when that very revision is already recorded. L4c: a listed block is registered under per-item success / absence from the block map only, and the listing loop runs over the whole listing (no positional or stop-at-first adaptor; filters are per-item guards). L5c: no successful return of meld bypasses one of its copy passes (the self-meld return excepted). L6: no read-path memo of a value that depends on the tree's current leaf set / winner unless the key carries that state whole.")
+        " L1c: the inserting function returns without inserting only when that very revision is already recorded. L4c: a listed block is registered under per-item success / absence from the block map only, and the listing loop runs over the whole listing (no positional or stop-at-first adaptor; filters are per-item guards). L4d: the applier's loop over the change records of a block has no exit that still ends in Ok. L5c: no successful return of meld bypasses one of its copy passes (the self-meld return excepted). L6: no read-path memo of a value that depends on the tree's current leaf set / winner unless the key carries that state whole.")
 TECHNIQUE = 'static analysis over rustc MIR: who-may-write on the revision map, post-dominance of re-validation through rayon closures, iteration-source typing, guard-literal whitelist on meld copies'
 TRUSTED = ["rustc nightly MIR", "HashMap keyed insert / BTreeSet order semantics", "C05, C18, C19, C10, C11"]
 
@@ -297,6 +297,29 @@ def run(facts, res):
                             if x[0] == "call" and x[4] is not None and callee_name(x) in ("into_iter", "iter") and \
                                     "BTreeSet<revision::Revision>" in (x[4].self_ty or x[4].full):
                                 ok = contains_call(pt, "get_leafs")
+            if not ok and b.kind == "closure":
+                from ..common import iter_chain as _ic3
+                # pipeline form: the fold step sits in the closure of `leafs.iter().for_each / try_for_each(..)`, possibly one level
+                # further down inside an Option / Result combinator (`rebuild(l).map(|o| merge_arrays(&o, &mut acc))`)
+                cb_, hops_ = b, 0
+                while cb_ is not None and cb_.kind == "closure" and hops_ < 4 and not ok:
+                    hops_ += 1
+                    nxt_ = None
+                    for cs_ in cg.callers_of(cb_.path):
+                        if cb_ not in cs_.closures or cs_.callee is None or not cs_.term.args:
+                            continue
+                        rc_ = arg_term(cs_.body, cs_.term, 0, 30)
+                        if cs_.callee.name in ("for_each", "try_for_each", "fold", "try_fold"):
+                            names_ = [callee_name(x) for x in _ic3(rc_)]
+                            sel_ = set(names_) & {"take", "skip", "step_by", "take_while", "skip_while", "rev", "filter", "filter_map"}
+                            ok = contains_call(rc_, "get_leafs") and not sel_ and any(
+                                x[0] == "call" and x[4] is not None and callee_name(x) in ("into_iter", "iter") and
+                                "BTreeSet" in ((x[4].self_ty or "") + x[4].full) and "revision::Revision" in ((x[4].self_ty or "") + x[4].full)
+                                for x in walk(rc_))
+                        elif cs_.callee.name in ("map", "and_then", "map_or", "map_or_else", "inspect", "iter"):
+                            nxt_ = cs_.body
+                        break
+                    cb_ = nxt_
             dst = arg_term(b, t, 1, 10)
             res.instance("L3", "%s: merge fold iterates get_leafs() as a BTreeSet<Revision>: %s" % (b.path, ok), b.loc(t.line))
             if not ok:
@@ -458,7 +481,76 @@ def run(facts, res):
                 res.violation("L4", "%s|listed-block-skipped-under-extra-condition" % name,
                               "%s registers a listed block only under the additional condition %s: blocks that are stored, valid and loadable can stay "
                               "unknown to the replica" % (name, extra[:2]), s.loc())
+    # bulk form: `deltas.extend(listing.iter().filter_map(parse).filter_map(|d| Some((d, load(d)?))))`: the per-item guards are the
+    # success conditions of the chain's closures; the chain carries no positional adaptor
+    from ..conds import success_result_lits as _srl4, closure_result_lits as _crl4b
+    from ..common import iter_chain as _ic4b
+    for name in ("melda::Melda::reload", "melda::Melda::refresh", "melda::Melda::reload_until"):
+        b = facts.body(name)
+        if b is None:
+            continue
+        for bi, t in b.calls():
+            if t.callee is None or t.callee.name != "extend" or len(t.args) < 2 or "deltas" not in field_path(arg_term(b, t, 0, 16))[0]:
+                continue
+            n4c += 1
+            ch_ = _ic4b(arg_term(b, t, 1, 40))
+            extra = []
+            sel_ = {callee_name(x) for x in ch_} & {"take", "skip", "step_by", "take_while", "skip_while", "map_while", "nth", "last", "find", "scan"}
+            if sel_:
+                extra.append("listing iterated through %s" % sorted(sel_))
+            for x in ch_:
+                if callee_name(x) in ("filter", "filter_map") and len(x[2]) > 1:
+                    cl_ = next((y for y in walk(x[2][1]) if y[0] == "closure"), None)
+                    cb_ = facts.body(cl_[1]) if cl_ is not None else None
+                    if cb_ is None:
+                        if not any(y[0] == "const" and y[1] == "fn" for y in walk(x[2][1])):
+                            extra.append("%s(<unresolved>)" % callee_name(x))
+                        continue
+                    ls_ = _srl4(cb_, facts) if callee_name(x) == "filter_map" else _crl4b(cb_, facts, True)
+                    extra += [repr(l2) for l2 in unaccepted(ls_, _reg_guard_ok)]
+            res.instance("L4", "%s: listed blocks are registered in bulk under per-item success only: %s" % (name, not extra), b.loc(t.line))
+            if extra:
+                res.violation("L4", "%s|listed-block-skipped-under-extra-condition" % name,
+                              "%s registers a listed block only under the additional condition %s: blocks that are stored, valid and loadable can stay "
+                              "unknown to the replica" % (name, extra[:2]), b.loc(t.line))
     res.floor("L4", "block registrations in the listing loops", n4c, 3)
+
+    # L4d: a block is applied whole: the applier's loop over the change records runs to exhaustion - it has no exit that still ends in
+    # Ok (a `break` at the first revision the tree already knows drops the records behind it: two replicas that wrote the same sealing
+    # marker into different blocks never learn the rest of each other's block)
+    from .c18 import _leads_to_ok_return as _ok4d
+    ab = R.body("applier")
+    n4d = 0
+    if ab is not None:
+        from ..common import members_of as _mo4d
+        for m_ in _mo4d(facts, ab):
+            for hb_, ht_ in m_.calls():
+                if ht_.callee is None or ht_.callee.name != "next":
+                    continue
+                blocks_ = _it4.loop_body_blocks(m_, hb_)
+                if not any(t2.callee is not None and t2.callee.name in ("unvalidated_add", "add") and "RevisionTree" in t2.callee.path
+                           for b2, t2 in m_.calls() if b2 in blocks_):
+                    continue
+                n4d += 1
+                bad_ = [e for e in _it4.early_exits(m_, hb_, blocks_) if _ok4d(m_, e[1])]
+                res.instance("L4", "%s: the loop over a block's change records has no exit that ends in Ok before every record was added: %s" % (m_.path, not bad_), m_.loc())
+                if bad_:
+                    res.violation("L4", "%s|block-applied-in-part" % ab.path,
+                                  "%s can leave its loop over the change records early and still return Ok: the records behind that point never reach the "
+                                  "revision trees although the block counts as applied" % ab.path, m_.loc(m_.blocks[bad_[0][0]].term.line))
+            # pipeline form: for_each / try_for_each visit every record (or hand on the first Err)
+            for b2, t2 in m_.calls():
+                if t2.callee is not None and t2.callee.name in ("for_each", "try_for_each") and t2.args:
+                    ch_ = [callee_name(x) for x in _ic4(arg_term(m_, t2, 0, 30))]
+                    if any(cb_ is not None and any(t3.callee is not None and t3.callee.name in ("unvalidated_add", "add") and "RevisionTree" in t3.callee.path for _, t3 in cb_.calls())
+                           for cb_ in [facts.body(x[1]) for a_ in t2.args for x in walk(arg_term(m_, t2, t2.args.index(a_), 8)) if x[0] == "closure"]):
+                        n4d += 1
+                        sel_ = set(ch_) & {"take", "skip", "step_by", "take_while", "skip_while", "map_while", "filter", "filter_map", "find"}
+                        res.instance("L4", "%s: the record pipeline visits every change record (%s): %s" % (m_.path, t2.callee.name, not sel_), m_.loc(t2.line))
+                        if sel_:
+                            res.violation("L4", "%s|block-applied-in-part" % ab.path, "%s feeds only a selection of a block's change records (%s) to the revision trees" % (
+                                ab.path, sorted(sel_)), m_.loc(t2.line))
+    res.floor("L4", "record loops of the block applier", n4d, 1)
 
     # ------------------------------------------------------------------ L5
     res.rule("L5", "meld copies every item the peer holds and this replica lacks (no further selection)")
